@@ -82,8 +82,8 @@ class Real:
         out = []
         for line in text.split("\n"):
             if line.startswith("  command = sim "):
-                line = "  command = " + self.vcmd + " " + line[len("  command = "):]
-                if self.compound:
+                line = "  command = " + ("exec " if self.compound == "exec" else "") + self.vcmd + " " + line[len("  command = "):]
+                if self.compound is True:
                     line += " && true"
             out.append(line)
         return "\n".join(out)
@@ -201,6 +201,7 @@ class Real:
                 break
             started = self.started_files()
             running = [i for i in started if i not in released]
+            obs["max_running"] = max(obs.get("max_running", 0), len(running))
             if not running:
                 # ninja is alive, nothing runs, nothing pending: it would wait forever
                 time.sleep(0.05)
@@ -237,6 +238,8 @@ class Real:
                 if f:
                     if f.get("signal"):
                         verdict = "sigint"
+                    elif f.get("dies"):
+                        verdict = "dies %d %d" % (f["dies"], 1 if f.get("touch") else 0)
                     else:
                         verdict = "fail %d %d" % (f.get("code", 1), 1 if f.get("touch") else 0)
                 with open(os.path.join(self.ctl, "go." + ident + ".tmp"), "w") as g:
@@ -293,7 +296,7 @@ class Real:
                     continue
                 data = open(os.path.join(root, n), "rb").read().decode("latin-1")
                 if rel == "build.ninja" or rel.endswith(".ninja"):
-                    data = data.replace(self.vcmd + " ", "").replace(" && true", "")
+                    data = data.replace("exec " + self.vcmd + " ", "").replace(self.vcmd + " ", "").replace(" && true", "")
                 files[rel] = data
         return files
 
